@@ -40,6 +40,14 @@ def families(tier, seed):
     # deterministic witness of known finding F2 (independent of VERIF_SEED)
     out.append(dict(name='C10 witness of known finding F2: x:-4..-1, y, z two-valued, random care, fixed seed 0',
                     run=_part(dict(x=(-4, -1), y=(0, 1), z=(0, 1)), 'random-care', 0, 30, 'cudd', 0, 1), label='bounded'))
+    # sampled larger instances with a non-empty cyclic core (both branches of the exhaustive search run)
+    G333 = dict(x=(0, 2), y=(0, 2), z=(0, 2))
+    B5 = dict(x=(0, 1), y=(0, 1), z=(0, 1), w=(0, 1), v=(0, 1))
+    cyc = [(G333, 640, 32), (B5, 160, 16)] if tier == 'quick' else [(G333, 6400, 64), (B5, 1600, 32)]
+    for decl, n, parts in cyc:
+        for part in range(parts):
+            out.append(dict(name=f'{WHAT} bounded cyclic cores {decl} n={n} part {part}/{parts}',
+                            run=cc_.cover_check(decl, 'cyclic-core', seed * 1000 + part, max(1, n // parts), 'cudd', WHAT), label='bounded'))
     grids = GRIDS_QUICK + (GRIDS_THOROUGH if tier == 'thorough' else [])
     for gi, (decl, mode, n) in enumerate(grids):
         for be in ('cudd',) + (('autoref',) if gi < 2 else ()):
@@ -65,4 +73,4 @@ def _part(decl, mode, seed, n, be, part, parts):
 
 
 def coverage_extra(results):
-    return dict(bounded_parameters=dict(instances='exhaustive: all subsets of the 2x2 and 2x2x2 hinted grids; sampled: 3x3 grid, 4x4 and mixed-sign grids with random care sets (VERIF_SEED)'))
+    return dict(bounded_parameters=dict(instances='exhaustive: all subsets of the 2x2 and 2x2x2 hinted grids; sampled: 3x3 grid, 4x4 and mixed-sign grids with random care sets; sampled instances with a non-empty cyclic core on a 4x4x4 grid (hints 0..2) and over 5 two-valued variables (640/160 quick, 6400/1600 thorough), all minimum covers enumerated by an exact reference (VERIF_SEED; PYTHONHASHSEED fixed to 0 by bin/ovc)'))
